@@ -5,11 +5,35 @@ import cait_check as ck
 from common import run_check
 
 THEOREMS = [
+    "Pedal.Cait.c11_generalised_fragment_matches",
+    "Pedal.Cait.c11_fragment_matches",
+    "Pedal.Cait.c11_program_matches_itself",
+    "Pedal.Cait.gen_deep",
+    "Pedal.Cait.deep_self",
+    "Pedal.Cait.findMatches_intro",
+    "Pedal.Cait.genAt_refl",
+    "Pedal.Cait.genAt_wildcard",
 ]
 NOTES = [
+    "the theorems are about the Lean port `findMatches` of find_matches(pattern, code) (check_meta=True, "
+    "use_previous=None) over abstract trees (kind, field, iter_fields with plain values, children); that the real "
+    "matcher equals the port is SAMPLED by the correspondence on every run (match count, order, mappings, "
+    "exp_table, the three symbol tables, conflict keys, match_root), not proved",
+    "'obtained from the program by the generalisation steps' is the Lean relation genAt (PedalProofs/CaitGen.lean): "
+    "___ / __e__ Names (or expression statements made of them) anywhere, one function rho from _v_ keys to "
+    "identifiers, children dropped in order, everything else kept; that the harness's derive() produces patterns "
+    "inside this relation is by construction of derive(), not checked per run",
+    "pattern trees satisfy opLeaves / binOp3 (Add/Mult nodes are leaves, a BinOp has three children): true of "
+    "every ast tree, checked by the driver on every request",
+    "CaitNode.find_matches(..., use_previous=True) (sub-matches inheriting the parent's bindings) is exercised on "
+    "the real code by the searches but not modelled",
 ]
+REFUTED = [{"statement": "Pedal.Cait.C11_GeneraliseAnyMatching_Full",
+            "refuted_by": "#guard witness in PedalProofs/C11.lean (x[a+b:] / x[___:] on x[:a+b]), evaluated on the "
+                          "model; reproduced on the real code by the search in every run",
+            "covered_by": "open finding: fields-not-compared-below-commutative-operator"}]
 
 if __name__ == "__main__":
     sys.exit(run_check("C11", proof_modules=["PedalProofs.C11"], theorems=THEOREMS, driver_exe="driver_c11",
                        correspond=ck.correspond("C11"), search=ck.search_c11, replay=ck.replay,
-                       model_notes=NOTES, unproved_full=[], leanchecker_modules=["PedalProofs.C11"]))
+                       model_notes=NOTES, refuted_full=REFUTED, leanchecker_modules=["PedalProofs.C11"]))
